@@ -799,3 +799,151 @@ Proof.
   intros st name q ch H. cbn [step]. rewrite H.
   destruct (remember_frames q (st_layout st) ch); cbn [snd]; discriminate.
 Qed.
+
+(** ** Witnesses: the full property is false of the model (and of the code) *)
+
+(** classes flagged along a history *)
+Fixpoint classes_along (st : state) (ops : list op) : list known_class :=
+  match ops with
+  | [] => []
+  | o :: r => classes_of st o ++ classes_along (fst (step st o)) r
+  end.
+(** side conditions that are not C14's business hold along the history *)
+Fixpoint side_ok (st : state) (ops : list op) : bool :=
+  match ops with
+  | [] => true
+  | o :: r => (match o with OSetLayout l => keeps_events st l && negb (zero_id l) | _ => true end)
+              && side_ok (fst (step st o)) r
+  end.
+
+Definition q_all : query := mkQuery None None None TCore true None.
+Definition ev (k ts pt id : N) : event := mkEvent k ts pt id 0 0.
+
+(** (1) MarkOfLastFrame — one shard, an older event in a segment, a newer one in the memtable; REMEMBER
+    receives the memtable batch first, the segment batch last: the mark is the segment's, the next SHOW
+    delivers the memtable event again. *)
+Definition w_lastframe : list op :=
+  [ OSetLayout [mkShard [ev 2 20 0 200] [mkSeg 20 [[ev 1 10 0 100]]]];
+    ORemember 1 q_all [(0, []); (1, [])];
+    OShow 1 [(0, [])] ].
+
+(** (2) PayloadTimeField — USING pt: an event whose payload time is above the core-timestamp mark is
+    delivered again by every SHOW; an event arriving later with a payload time below the mark never shows. *)
+Definition q_pt : query := mkQuery None None None TPayload true None.
+Definition w_payload_dup : list op :=
+  [ OSetLayout [mkShard [ev 1 10 50 100] []];
+    ORemember 1 q_pt [(0, [])];
+    OShow 1 [(0, [])] ].
+Definition w_payload_lost : list op :=
+  [ OSetLayout [mkShard [ev 1 10 10 100] []];
+    ORemember 1 q_pt [(0, [])];
+    OSetLayout [mkShard [ev 1 10 10 100; ev 2 20 5 200] []];
+    OShow 1 [] ].
+(** … and with RETURN omitting the time field the watermark filter is off: the raw delta is appended to the
+    frames on every SHOW and comes back twice from the second SHOW on *)
+Definition q_pt_hidden : query := mkQuery None None None TPayload false None.
+Definition w_payload_hidden : list op :=
+  [ OSetLayout [mkShard [ev 1 10 50 100] []];
+    ORemember 1 q_pt_hidden [(0, [])];
+    OShow 1 [(0, [])];
+    OShow 1 [(0, [])] ].
+
+(** (3) EventNotAboveMark — frozen clock: the remembered event was applied on shard 1, a later event of the
+    same second and millisecond on shard 0 gets a smaller id and stays below the mark for ever. *)
+Definition w_same_ms : list op :=
+  [ OSetLayout [mkShard [] []; mkShard [ev 1 10 0 4196] []];
+    ORemember 1 q_all [(2, [])];
+    OSetLayout [mkShard [ev 2 10 0 100] []; mkShard [ev 1 10 0 4196] []];
+    OShow 1 [] ].
+
+(** (4) LimitNotReapplied — LIMIT is applied when REMEMBER stores, never when SHOW answers. *)
+Definition q_lim1 : query := mkQuery None None None TCore true (Some 1).
+Definition w_limit : list op :=
+  [ OSetLayout [mkShard [ev 1 10 0 100] []];
+    ORemember 1 q_lim1 [(0, [1])];
+    OSetLayout [mkShard [ev 1 10 0 100; ev 2 20 0 200] []];
+    OShow 1 [(0, [2])] ].
+
+(** (5) RawStreamDuplicates — REMEMBER inside a flush window: the event is in the passive memtable and in
+    the published segment; QUERY drops the repeated id, REMEMBER stores both rows. *)
+Definition w_window : list op :=
+  [ OSetLayout [mkShard [ev 1 10 0 100] [mkSeg 10 [[ev 1 10 0 100]]]];
+    ORemember 1 q_all [(0, []); (1, [])];
+    OSetLayout [mkShard [] [mkSeg 10 [[ev 1 10 0 100]]]];
+    OShow 1 [] ].
+
+(** (6) SegmentOlderThanEvent — events stamped ahead of the file-system clock: the segment holding the new
+    event has an mtime below mark.ts - 1 and is skipped whole. *)
+Definition w_mtime : list op :=
+  [ OSetLayout [mkShard [ev 1 100 0 100] []];
+    ORemember 1 q_all [(0, [])];
+    OSetLayout [mkShard [] [mkSeg 50 [[ev 1 100 0 100; ev 2 110 0 200]]]];
+    OShow 1 [] ].
+
+Lemma refuted_by : forall ops, shows_ok_b init ops = false -> ~ shows_ok init ops.
+Proof. intros ops H Hs. apply shows_ok_b_spec in Hs. congruence. Qed.
+
+Definition witness_of (c : known_class) (ops : list op) : Prop :=
+  side_ok init ops = true /\
+  (forall c', In c' (classes_along init ops) -> c' = c) /\
+  ~ In ObsBadChoice (run init ops) /\
+  ~ shows_ok init ops.
+
+Ltac witness :=
+  split; [vm_compute; reflexivity|
+  split; [vm_compute; intros c' H; repeat (destruct H as [H|H]; [symmetry; exact H|]); contradiction|
+  split; [vm_compute; intros H; repeat (destruct H as [H|H]; [discriminate H|]); contradiction|
+  apply refuted_by; vm_compute; reflexivity]]].
+
+Theorem show_eq_query_refuted_lastframe : witness_of MarkOfLastFrame w_lastframe.
+Proof. witness. Qed.
+Theorem show_eq_query_refuted_payload_dup : witness_of PayloadTimeField w_payload_dup.
+Proof. witness. Qed.
+Theorem show_eq_query_refuted_payload_lost : witness_of PayloadTimeField w_payload_lost.
+Proof. witness. Qed.
+Theorem show_eq_query_refuted_payload_hidden : witness_of PayloadTimeField w_payload_hidden.
+Proof. witness. Qed.
+Theorem show_eq_query_refuted_same_ms : witness_of EventNotAboveMark w_same_ms.
+Proof. witness. Qed.
+Theorem show_eq_query_refuted_limit : witness_of LimitNotReapplied w_limit.
+Proof. witness. Qed.
+Theorem show_eq_query_refuted_window : witness_of RawStreamDuplicates w_window.
+Proof. witness. Qed.
+Theorem show_eq_query_refuted_mtime : witness_of SegmentOlderThanEvent w_mtime.
+Proof. witness. Qed.
+
+Theorem show_eq_query_refuted : exists ops, side_ok init ops = true /\ ~ shows_ok init ops.
+Proof. exists w_lastframe. destruct show_eq_query_refuted_lastframe as [H [_ [_ H']]]. split; assumption. Qed.
+
+(** ** The hypotheses of the positive theorems are satisfiable: a history over two shards with events before
+    REMEMBER, between REMEMBER and SHOW and between SHOWs, a flush, a compaction-like re-zoning, an event on
+    the high-water second, WHERE / FOR / SINCE — no class is flagged and every SHOW is non-trivial. *)
+Definition q_ex : query := mkQuery (Some 0) (Some (CGe, 1)) (Some 5) TCore true None.
+Definition x1 := mkEvent 1 10 0 4196 0 1.
+Definition x2 := mkEvent 2 10 0 8000 0 0.   (* fails WHERE *)
+Definition x3 := mkEvent 3 11 0 9000 0 2.
+Definition x4 := mkEvent 4 11 0 9500 0 3.   (* same second as the mark *)
+Definition x5 := mkEvent 5 12 0 12000 1 5.  (* other context *)
+Definition x6 := mkEvent 6 13 0 13000 0 7.
+Definition ex_ops : list op :=
+  [ OSetLayout [mkShard [x2] []; mkShard [x1] []];
+    ORemember 7 q_ex [(2, [])];
+    ORemember 7 q_ex [(2, [])];
+    OSetLayout [mkShard [x2] []; mkShard [x3] [mkSeg 11 [[x1]]]];
+    OShow 7 [(2, [])];
+    OSetLayout [mkShard [x2; x5] []; mkShard [x4] [mkSeg 11 [[x1]]; mkSeg 11 [[x3]]]];
+    OShow 7 [(2, [])];
+    OShow 7 [];
+    OSetLayout [mkShard [x5] [mkSeg 12 [[x2]]]; mkShard [x6] [mkSeg 12 [[x1; x3]; [x4]]]];
+    OShow 7 [(2, [])] ].
+
+Example ex_no_known : no_known init ex_ops.
+Proof. cbn [no_known ex_ops]. repeat split; vm_compute; reflexivity. Qed.
+
+Example ex_outputs :
+  map (fun o => match o with ObsShow out _ _ => map e_k out | ObsRejected => [99] | _ => [] end) (run init ex_ops)
+  = [[]; []; [99]; []; [1; 3]; []; [1; 3; 4]; [1; 3; 4]; []; [1; 3; 4; 6]].
+Proof. vm_compute. reflexivity. Qed.
+
+Example ex_reach : reach (fst (step init (OSetLayout [mkShard [x2] []; mkShard [x1] []]))).
+Proof. apply reach_step; [apply reach_init|]. repeat split; vm_compute; reflexivity. Qed.
